@@ -174,7 +174,7 @@ func runC09(cfg Config) {
 	monitor := func(what, caseLine, impl string) {
 		rep.Disagree(Disagreement{Kind: "monitor", Case: clip(caseLine, 100000), Impl: clip(impl, 1000), What: what})
 	}
-	n := cfg.N(3000, 100000)
+	n := cfg.N(20000, 400000)
 	for it := 0; it < n; it++ {
 		max := uint64(8 + rng.Intn(40))
 		// build a blob as a sequence of chunks
